@@ -230,12 +230,16 @@ class Program:
         self.consts = {}
         self.adts = {}
         self.crates = {}
+        self.promoted = {}
         for c in CRATES:
             with open(os.path.join(facts_dir, c + ".json")) as f:
                 d = json.load(f)
             self.crates[c] = d
             for raw in d["bodies"]:
                 fn = Fn(c, raw)
+                if fn.kind == "Promoted":
+                    self.promoted[fn.name] = fn
+                    continue
                 self.fns[fn.id] = fn
                 self.by_name.setdefault(fn.name, []).append(fn)
             for k in d["consts"]:
@@ -287,7 +291,7 @@ class Program:
         return [fn] + list(fn.closures)
 
     def stats(self):
-        return {c: len(self.crates[c]["bodies"]) for c in CRATES}
+        return {c: len([f for f in self.fns.values() if f.crate == c]) for c in CRATES}
 
 
 class AnchorMissing(Exception):
